@@ -24,7 +24,7 @@ LEVEL = "exploration"
 RUNS = {"quick": 1200, "thorough": 25000}
 CHUNK = {"quick": 10, "thorough": 50}
 PROBES = ["rsa1024", "rsa2048", "info_len_0", "info_len_at_limit", "info_len_over_limit", "field_at_max", "field_at_zero",
-          "rogue_wrong_key", "rogue_random", "rogue_bitflip", "rogue_no_magic", "rogue_short_plaintext", "ref_to_lib",
+          "rogue_wrong_key", "rogue_random", "rogue_bitflip", "rogue_no_magic", "rogue_short_plaintext", "ref_to_lib", "metadata_object_reused",
           "session_population"]
 RULE = ("seeded plans: 6-12 metadata items per plan with every field drawn from {0, 1, max, random} at its full integer "
         "width, info of length 0..limit (limit = k-11-59 for the key) with the limit, limit+1 and limit+40 biased, "
@@ -58,6 +58,9 @@ def generate(rng, tier, index):
         f["aes_rand"] = hx(bytes(rng.getrandbits(8) for _ in range(16)))
         n = rng.choice([0, 1, 20, lim - 1, lim, lim, lim + 1, lim + 40, rng.randint(0, lim)])
         f["info"] = hx(bytes(rng.choice([9, 32, 65, 97, 0, 255, rng.getrandbits(8)]) for _ in range(n)))
+        # history on one metadata object: re-encrypt after changing info; re-encrypt what decrypt_metadata returned
+        f["reuse"] = [rng.choice(["grow", "shrink", "empty", "same", "redecrypted_grow", "redecrypted_shrink"])
+                      for _ in range(rng.choice([0, 0, 1, 2, 3]))]
         items.append(f)
     other = {"rsa1024_a": "rsa1024_b", "rsa1024_b": "rsa1024_a", "rsa2048_a": "rsa2048_b", "rsa2048_b": "rsa2048_a"}[rsa]
     rogue = []
@@ -67,7 +70,8 @@ def generate(rng, tier, index):
         if k == "bitflip":
             r["bit"] = rng.randint(0, rsa_key(rsa).size_in_bytes() * 8 - 1)
         if k == "no_magic":
-            r["plain"] = hx(struct.pack(">I", rng.choice([0, 0xBEEE, 0xBEEF0000, 0xEFBE, rng.getrandbits(32)]))
+            r["plain"] = hx(struct.pack(">I", rng.choice([0, 0xBEEE, 0xBEEF0000, 0xEFBE, 0x0001BEEF, 0xDEADBEEF, 0xFFFFBEEF,
+                                                          0x8000BEEF, (rng.getrandbits(16) or 1) << 16 | 0xBEEF, rng.getrandbits(32)]))
                             + bytes(rng.getrandbits(8) for _ in range(rng.choice([0, 4, 55, 56, 80, rng.randint(0, lim + 55)]))))
             if unhx(r["plain"])[:4] == b"\x00\x00\xbe\xef":
                 r["plain"] = "00000000" + r["plain"][8:]
@@ -152,6 +156,36 @@ def execute(plan: dict) -> Result:
             k3 = BeaconKeys.from_beacon_metadata(back)
             if tuple(k1) != (d[:16], d[16:]) or (k2.aes_key, k2.hmac_key) != (d[:16], d[16:]) or (k3.aes_key, k3.hmac_key) != (d[:16], d[16:]):
                 res.violate(("C06", "key_derivation"), "session keys are not the two halves of SHA-256(aes_rand)")
+            # ---- history: the same object (or the decrypted one) is edited and encrypted again
+            obj = m
+            cur_info = info
+            for step in f.get("reuse", []):
+                res.probes["metadata_object_reused"] += 1
+                if step.startswith("redecrypted"):
+                    obj = back
+                if step.endswith("grow"):
+                    cur_info = (cur_info + b"+grown+")[:lim]
+                elif step.endswith("shrink"):
+                    cur_info = cur_info[:len(cur_info) // 2]
+                elif step == "empty":
+                    cur_info = b""
+                obj.info = cur_info
+                try:
+                    blob2 = encrypt_metadata(obj, pub)
+                    pt2 = rc.rsa_decrypt(blob2, priv)
+                    got2 = rc.parse_metadata(pt2) if pt2 is not None else None
+                    back2 = decrypt_metadata(blob2, priv)
+                except Exception as e:
+                    res.violate(("C06", "reuse_raised", type(e).__name__, step),
+                                f"re-encrypting a metadata object after '{step}' (info now {len(cur_info)} bytes) raised {e!r}")
+                    break
+                if got2 is None or got2["info"] != cur_info or got2["size"] != len(pt2) - 8 or bytes(back2.info) != cur_info:
+                    res.violate(("C06", "reuse_stale_size_or_info", step),
+                                f"after '{step}' on a previously used metadata object the peer sees info of "
+                                f"{len(got2['info']) if got2 else None} bytes / size {got2['size'] if got2 else None}, expected "
+                                f"{len(cur_info)} bytes / size {rc.META_FIXED - 8 + len(cur_info)}")
+                    break
+                back = back2
             # reference-encoded blob -> library
             if n <= lim:
                 res.probes["ref_to_lib"] += 1
